@@ -400,6 +400,12 @@ var topRules = []topRule{
 	{name: "trigger-callback-not-event", good: "import trigger minute from triggers;\nevent fn cb(elapsed: int) {}\nfn main() { trigger cb at minute(1); }\n", bad: "import trigger minute from triggers;\nfn cb(elapsed: int) {}\nfn main() { trigger cb at minute(1); }\n"},
 	{name: "trigger-callback-params", good: "import trigger minute from triggers;\nevent fn cb(elapsed: int) {}\nfn main() { trigger cb at minute(1); }\n", bad: "import trigger minute from triggers;\nevent fn cb(elapsed: str) {}\nfn main() { trigger cb at minute(1); }\n"},
 	{name: "trigger-arguments", good: "import trigger minute from triggers;\nevent fn cb(elapsed: int) {}\nfn main() { trigger cb at minute(1); }\n", bad: "import trigger minute from triggers;\nevent fn cb(elapsed: int) {}\nfn main() { trigger cb at minute(\"s\"); }\n"},
+	// trigger annotations: their arguments are analysed in the MODULE's scope, not in the annotated function's
+	{name: "annotation-argument-type", good: "import trigger minute from triggers;\nlet period = 5;\n#[trigger in minute(period * 2)]\nevent fn tick(elapsed: int) { println(elapsed); }\nfn main() {}\n", bad: "import trigger minute from triggers;\nlet period = \"five\";\n#[trigger in minute(period)]\nevent fn tick(elapsed: int) { println(elapsed, period); }\nfn main() {}\n"},
+	{name: "annotation-argument-names-parameter", good: "import trigger minute from triggers;\nlet period = 5;\n#[trigger in minute(period)]\nevent fn tick(elapsed: int) { println(elapsed); }\nfn main() {}\n", bad: "import trigger minute from triggers;\n#[trigger in minute(elapsed)]\nevent fn tick(elapsed: int) { println(elapsed); }\nfn main() {}\n"},
+	{name: "annotation-argument-names-body-local", good: "import trigger minute from triggers;\nlet period = 5;\n#[trigger in minute(period)]\nevent fn tick(elapsed: int) { let period = \"five\"; println(elapsed, period); }\nfn main() {}\n", bad: "import trigger minute from triggers;\n#[trigger in minute(inner)]\nevent fn tick(elapsed: int) { let inner = 5; println(elapsed, inner); }\nfn main() {}\n"},
+	{name: "annotation-callback-params", good: "import trigger minute from triggers;\n#[trigger in minute(1)]\nevent fn tick(elapsed: int) { println(elapsed); }\nfn main() {}\n", bad: "import trigger minute from triggers;\n#[trigger in minute(1)]\nevent fn tick(elapsed: str) { println(elapsed); }\nfn main() {}\n"},
+	{name: "annotation-unknown-trigger", good: "import trigger minute from triggers;\n#[trigger in minute(1)]\nevent fn tick(elapsed: int) { println(elapsed); }\nfn main() {}\n", bad: "import trigger minute from triggers;\n#[trigger in nosuch(1)]\nevent fn tick(elapsed: int) { println(elapsed); }\nfn main() {}\n"},
 	{name: "trigger-unknown", good: "import trigger minute from triggers;\nevent fn cb(elapsed: int) {}\nfn main() { trigger cb at minute(1); }\n", bad: "event fn cb(elapsed: int) {}\nfn main() { trigger cb at nope(1); }\n"},
 	{name: "trigger-unknown-callback", good: "import trigger minute from triggers;\nevent fn cb(elapsed: int) {}\nfn main() { trigger cb at minute(1); }\n", bad: "import trigger minute from triggers;\nfn main() { trigger nope at minute(1); }\n"},
 	{name: "impl-matches-template", good: implGood, bad: strings.Replace(implGood, "fn dim(s: $Lamp, percent: int) -> bool { true }", "fn dim(s: $Lamp, percent: str) -> bool { true }", 1)},
